@@ -148,11 +148,15 @@ PROPS = {
                                   "wildcards, exceptions, implicit *) run on the parsed .dat"}],
         "design_ref": "DESIGN.md section 5 / C10 and section 0.4",
         "not_covered": [
-            "that the packed table (tld_list.rs) encodes exactly the rules of public_suffix_list.dat is NOT proved: the proof is relative "
-            "to the rule trie the table represents (well-formedness and sortedness of the shipped table are checked by the "
-            "verified checker at run time). A bounded stand-in covers it: the enumeration psl-enumerate (bounded_checks) looks up "
-            "about 65 000 names derived from every rule of the shipped .dat with the real crate and compares with the publicsuffix.org "
-            "algorithm on the parsed list -- it finds a regenerated, truncated or bit-flipped table unless the damage is invisible on those names",
+            "that the packed table (tld_list.rs) encodes exactly the rules of public_suffix_list.dat is decided by a VERIFIED CHECKER that is compiled "
+            "and run on this tree's table and on the rule list parsed from this tree's .dat (obligation psl::compiled-run#1): Verus proves, for every table "
+            "and rule list, that `check_rules` returning the list's length means every rule reaches a node carrying that rule's mark (`has_rule`), and that "
+            "`count_rule_ends` is the number of rule marks in the table; the run says 9777 of 9777 rules found and 9777 marks. NOT mechanised: the step from "
+            "'every listed rule is in the table, the rules are pairwise different, and there are as many marks as rules' to 'the table holds exactly the "
+            "listed rules' (needs the table to be a tree: sibling ranges of different parents disjoint -- true of the generator's layout, not checked), and "
+            "the parsing of the .dat (comments, `!`, `*.`, IDN labels through the idna crate; duplicates removed) which is done by the replay crate, trusted",
+            "the bounded enumeration psl-enumerate (about 65 000 names derived from the rules, real crate against the publicsuffix.org algorithm on the parsed "
+            "list) is kept as an end-to-end cross-check and as the source of a concrete failing domain; it is listed under bounded_checks, not counted",
             "the rule-walk specification (`walk`) is the publicsuffix.org / x-net-publicsuffix trie walk written as a spec "
             "function, not the declarative 'longest matching rule' definition over a rule set",
         ],
